@@ -12,6 +12,9 @@
 //!   `r<j>`  release the gate of handler j (its `shutdown` future may now complete)
 //!   `e`     `Endpoint::close().await` from outside the router (endpoint closing on its own)
 //!   `d<i>`  abort caller i's task (the `shutdown` future is dropped)
+//!   `p<j>`  a real dialer connects with handler j's ALPN and handler j's `accept` PANICS on that
+//!           connection (the accept task panics; the run loop must break to the teardown).  Only
+//!           possible while the loop still accepts: after an earlier `c`/`e`/`p` it is a no-op.
 //! output: `<ev>><returned callers a.b.. | ->/<is_shutdown 0|1>/<endpoint closed 0|1>;.. | c<i>:<st>,..`
 //!   st = `nc` (never called) | `pend` | `dropped` | `ret:<handlers done at return>/<H>:<closed at return>:<ok|err>`
 //! oracle (independent of the model): a caller that returned saw H/H handlers done and a closed
@@ -41,6 +44,7 @@ enum Ev {
     Release(usize),
     ExtClose,
     Drop(usize),
+    Panic(usize),
 }
 
 fn parse(payload: &str) -> Option<(usize, usize, Vec<Ev>)> {
@@ -63,6 +67,7 @@ fn parse(payload: &str) -> Option<(usize, usize, Vec<Ev>)> {
                     "c" if i < n => Ev::Call(i),
                     "r" if i < h => Ev::Release(i),
                     "d" if i < n => Ev::Drop(i),
+                    "p" if i < h => Ev::Panic(i),
                     _ => return None,
                 }
             };
@@ -78,6 +83,7 @@ fn ev_tok(e: Ev) -> String {
         Ev::Release(j) => format!("r{j}"),
         Ev::ExtClose => "e".into(),
         Ev::Drop(i) => format!("d{i}"),
+        Ev::Panic(j) => format!("p{j}"),
     }
 }
 
@@ -86,6 +92,8 @@ struct Shared {
     gates: Vec<Semaphore>,
     done: Vec<AtomicBool>,
     starts: Vec<AtomicUsize>,
+    /// handler j's next `accept` panics
+    armed: Vec<AtomicBool>,
 }
 
 impl Shared {
@@ -102,6 +110,9 @@ struct Slow {
 
 impl ProtocolHandler for Slow {
     async fn accept(&self, _connection: Connection) -> Result<(), AcceptError> {
+        if self.shared.armed[self.idx].swap(false, SeqCst) {
+            panic!("verif: accept of handler {} panics on the marked connection", self.idx);
+        }
         Ok(())
     }
     async fn shutdown(&self) {
@@ -135,14 +146,13 @@ struct Outcome {
 }
 
 async fn scenario(h: usize, n: usize, evs: &[Ev]) -> Result<Outcome, Fault> {
-    let ep = tokio::time::timeout(WAIT, Endpoint::builder(presets::Minimal).bind())
-        .await
-        .map_err(|_| Fault::Infra("bind timed out".into()))?
-        .map_err(|e| Fault::Infra(format!("bind failed: {e}")))?;
+    let ep = bind_lo().await?;
+    let mut dialers: Vec<Endpoint> = Vec::new();
     let shared = Arc::new(Shared {
         gates: (0..h).map(|_| Semaphore::new(0)).collect(),
         done: (0..h).map(|_| AtomicBool::new(false)).collect(),
         starts: (0..h).map(|_| AtomicUsize::new(0)).collect(),
+        armed: (0..h).map(|_| AtomicBool::new(false)).collect(),
     });
     let mut b = Router::builder(ep.clone());
     for j in 0..h {
@@ -203,6 +213,47 @@ async fn scenario(h: usize, n: usize, evs: &[Ev]) -> Result<Outcome, Fault> {
                     break 'events;
                 }
                 triggered = true;
+            }
+            Ev::Panic(j) => {
+                if !triggered {
+                    shared.armed[j].store(true, SeqCst);
+                    let dialer = match bind_lo().await {
+                        Ok(d) => d,
+                        Err(f) => {
+                            fault = Some(f);
+                            break 'events;
+                        }
+                    };
+                    let alpn = format!("/verif/c41/{j}");
+                    let addr = router.endpoint().addr();
+                    let conn = tokio::time::timeout(WAIT, dialer.connect(addr, alpn.as_bytes())).await;
+                    dialers.push(dialer);
+                    let _conn = match conn {
+                        Ok(Ok(c)) => c,
+                        Ok(Err(e)) => {
+                            fault = Some(Fault::Infra(format!("dial for the panicking handler failed: {e:#}")));
+                            break 'events;
+                        }
+                        Err(_) => {
+                            fault = Some(Fault::Infra("dial for the panicking handler timed out".into()));
+                            break 'events;
+                        }
+                    };
+                    // the run loop has noticed the panicked task once the handlers' shutdown was
+                    // started (correct code) or the run task is gone (token cancelled by its guard)
+                    let t0 = tokio::time::Instant::now();
+                    loop {
+                        if shared.starts.iter().all(|s| s.load(SeqCst) >= 1) || router.is_shutdown() {
+                            break;
+                        }
+                        if t0.elapsed() > WAIT {
+                            fault = Some(Fault::Timeout(format!("after p{j}: the run loop did not react to the panicked accept task")));
+                            break 'events;
+                        }
+                        tokio::time::sleep(Duration::from_millis(1)).await;
+                    }
+                    triggered = true;
+                }
             }
             Ev::Drop(i) => {
                 if let Some(t) = tasks[i].take() {
@@ -275,7 +326,11 @@ async fn scenario(h: usize, n: usize, evs: &[Ev]) -> Result<Outcome, Fault> {
         }
     }
     drop(router);
-    let _ = tokio::time::timeout(Duration::from_secs(3), ep.close()).await;
+    let _ = tokio::time::timeout(Duration::from_secs(3), async {
+        let closes = dialers.iter().map(|d| d.close());
+        tokio::join!(n0_future::join_all(closes), ep.close())
+    })
+    .await;
 
     if let Some(f) = fault {
         return Err(f);
@@ -302,6 +357,17 @@ async fn scenario(h: usize, n: usize, evs: &[Ev]) -> Result<Outcome, Fault> {
         if cs.is_empty() { "-".to_string() } else { cs.join(",") }
     );
     Ok(Outcome { out, callers, starts })
+}
+
+async fn bind_lo() -> Result<Endpoint, Fault> {
+    let b = Endpoint::builder(presets::Minimal)
+        .clear_ip_transports()
+        .bind_addr((std::net::Ipv4Addr::LOCALHOST, 0))
+        .map_err(|e| Fault::Infra(format!("bind_addr: {e}")))?;
+    tokio::time::timeout(WAIT, b.bind())
+        .await
+        .map_err(|_| Fault::Infra("bind timed out".into()))?
+        .map_err(|e| Fault::Infra(format!("bind failed: {e}")))
 }
 
 struct C41;
@@ -334,10 +400,17 @@ impl C41 {
                 }
             }
         }
+        // a panicking accept task: mostly before any other trigger (where it takes effect)
+        if h > 0 && rng.chance(1, 4) {
+            let j = rng.usize_below(h);
+            let first_trigger = evs.iter().position(|e| matches!(e, Ev::Call(_) | Ev::ExtClose)).unwrap_or(evs.len());
+            let at = if rng.chance(4, 5) { rng.usize_below(first_trigger + 1) } else { rng.usize_below(evs.len() + 1) };
+            evs.insert(at, Ev::Panic(j));
+        }
         // occasionally a duplicated call / release (no-ops by construction of the script language)
         if rng.chance(1, 10) && !evs.is_empty() {
             let e = *rng.pick(&evs);
-            if !matches!(e, Ev::ExtClose) {
+            if !matches!(e, Ev::ExtClose | Ev::Panic(_)) {
                 evs.push(e);
             }
         }
@@ -368,6 +441,11 @@ impl Prop for C41 {
             "h=3 n=4 r0;r1;r2;c0;c1;c2;c3",
             "h=1 n=0 -",
             "h=2 n=2 c0;e;c1;r1;r0",
+            // a panicking accept task breaks the loop to the same teardown
+            "h=1 n=2 p0;c0;c1;r0",
+            "h=2 n=3 r0;p1;c0;r1;c1;c2",
+            "h=1 n=1 r0;p0;c0",
+            "h=1 n=1 c0;p0;r0",
         ];
         for f in fixed.iter().take(n) {
             out.push(f.to_string());
@@ -415,6 +493,9 @@ impl Prop for C41 {
                     ex.tags.push(format!("handlers={h}"));
                     if evs.contains(&Ev::ExtClose) {
                         ex.tags.push("ext-close".into());
+                    }
+                    if evs.iter().any(|e| matches!(e, Ev::Panic(_))) {
+                        ex.tags.push("accept-task-panicked".into());
                     }
                     if evs.iter().any(|e| matches!(e, Ev::Drop(_))) {
                         ex.tags.push("caller-dropped".into());
